@@ -232,7 +232,7 @@ def _timedeltas(quick):
     out = []
     days = [0, 1, -1, 35, -35, 36525, 100000, -100000, 99999999, 999999999, -999999999]
     if not quick: days += [2, 7, 30, 31, 34, -34, 100, 365, 1000, 10000, -10000, -36525, 49999, 50000, 10 ** 6, 10 ** 7, -10 ** 7, 5 * 10 ** 8]
-    secs = [0, 1, 86399] if quick else [0, 1, 59, 60, 3599, 3600, 43200, 86398, 86399]
+    secs = [0, 1, 86399] if quick else [0, 1, 59, 3600, 86398, 86399]
     us = US if quick else US + US_MORE
     for d in days:
         for s in secs:
